@@ -153,6 +153,19 @@ def handleC11 (toks : List String) : String :=
         let tol := if xs.length = 13 then xs.getD 12 0 else transformTol
         show6 (transform tol axes norms c)
       | none => err "format"
+  | "axescheck" :: rest =>
+    -- `tools.axes_check` on its own: 9 axes, 3 norms, optional tol
+    match parseRats? rest with
+    | some xs =>
+      if xs.length ≠ 12 ∧ xs.length ≠ 13 then err "format" else
+      let axes : M33 Rat := m33 (xs.take 9)
+      let nl := (xs.drop 9).take 3
+      let norms : Fin 3 → Rat := fun i => nl.getD i.val 1
+      let tol := if xs.length = 13 then xs.getD 12 0 else axesCheckTol
+      match axesCheckT tol axes norms with
+      | .ok u => "ok " ++ showRats (idx3.map fun p => u p.1 p.2)
+      | .error e => errOf e
+    | none => err "format"
   | "rot" :: rest =>
     -- raw tensor rotation of an arbitrary 6x6 (no setter, no clean-up): 36 c, 9 T -> 81
     match parseRats? rest with
